@@ -203,41 +203,82 @@ func ruleC18_4(c *Ctx, r *Rep) {
 	if fn == nil {
 		return
 	}
-	var retTrue *ssa.Return
+	var retTrues []*ssa.Return
 	for _, ret := range returnsOf(fn) {
 		if cst, ok := retResult(ret, 0).(*ssa.Const); ok && cst.Value != nil && cst.Value.String() == "true" {
-			retTrue = ret
+			retTrues = append(retTrues, ret)
+		} else if !ok {
+			// a computed result: the rule cannot tell which paths say "match"
+			r.Undecided("C18.4", "C18.4:match-result-computed", ret.Pos(), "match returns a computed value: the rule needs constant true/false results to attribute them to paths")
 		}
 	}
-	if retTrue == nil {
+	if len(retTrues) == 0 {
 		r.Fail("C18.4", "C18.4:match", fn.Pos(), "match never returns true")
 		return
 	}
-	cs := edgeConds(retTrue.Block())
-	okCount := condHas(cs, false, func(v ssa.Value) bool {
-		bo, ok := v.(*ssa.BinOp)
-		if !ok || bo.Op != token.LEQ {
-			return false
+	// the loop over the injected parameters and its "exhausted" exit
+	var exhausted *ssa.BasicBlock
+	for _, b := range fn.Blocks {
+		for _, in := range b.Instrs {
+			nx, ok := in.(*ssa.Next)
+			if !ok {
+				continue
+			}
+			rg, ok := nx.Iter.(*ssa.Range)
+			if !ok || !sources(rg.X)["field:Parameters"] || sources(rg.X)["param:params"] {
+				continue
+			}
+			if iff, ok := b.Instrs[len(b.Instrs)-1].(*ssa.If); ok {
+				if ex, ok := iff.Cond.(*ssa.Extract); ok && ex.Tuple == ssa.Value(nx) && ex.Index == 0 {
+					exhausted = b.Succs[1]
+				}
+			}
 		}
-		z, isZ := constInt(bo.Y)
-		return isZ && z == 0 && sources(bo.X)["call:LoadInt64"]
-	}) || condHas(cs, true, func(v ssa.Value) bool {
-		bo, ok := v.(*ssa.BinOp)
-		if !ok || bo.Op != token.GTR {
-			return false
+	}
+	for i, retTrue := range retTrues {
+		cs := edgeConds(retTrue.Block())
+		okCount := condHas(cs, false, func(v ssa.Value) bool {
+			bo, ok := v.(*ssa.BinOp)
+			if !ok || bo.Op != token.LEQ {
+				return false
+			}
+			z, isZ := constInt(bo.Y)
+			return isZ && z == 0 && sources(bo.X)["call:LoadInt64"]
+		}) || condHas(cs, true, func(v ssa.Value) bool {
+			bo, ok := v.(*ssa.BinOp)
+			if !ok || bo.Op != token.GTR {
+				return false
+			}
+			z, isZ := constInt(bo.Y)
+			return isZ && z == 0 && sources(bo.X)["call:LoadInt64"]
+		})
+		okOp := condHas(cs, false, func(v ssa.Value) bool {
+			bo, ok := v.(*ssa.BinOp)
+			return ok && bo.Op == token.NEQ && sources(bo.X)["field:Operation"] && sources(bo.Y)["param:op"]
+		}) || condHas(cs, true, func(v ssa.Value) bool {
+			bo, ok := v.(*ssa.BinOp)
+			return ok && bo.Op == token.EQL && sources(bo.X)["field:Operation"] && sources(bo.Y)["param:op"]
+		})
+		sfx := ""
+		if i > 0 {
+			sfx = fmt.Sprintf("#%d", i+1)
 		}
-		z, isZ := constInt(bo.Y)
-		return isZ && z == 0 && sources(bo.X)["call:LoadInt64"]
-	})
-	okOp := condHas(cs, false, func(v ssa.Value) bool {
-		bo, ok := v.(*ssa.BinOp)
-		return ok && bo.Op == token.NEQ && sources(bo.X)["field:Operation"] && sources(bo.Y)["param:op"]
-	}) || condHas(cs, true, func(v ssa.Value) bool {
-		bo, ok := v.(*ssa.BinOp)
-		return ok && bo.Op == token.EQL && sources(bo.X)["field:Operation"] && sources(bo.Y)["param:op"]
-	})
-	r.Check("C18.4", "C18.4:count-and-operation", retTrue.Pos(), okCount && okOp, "a match requires remaining count > 0 and the same operation",
-		fmt.Sprintf("match can return true without `count > 0` (%v) or without `operation equal` (%v)", okCount, okOp))
+		r.Check("C18.4", "C18.4:count-and-operation"+sfx, retTrue.Pos(), okCount && okOp, "a match requires remaining count > 0 and the same operation",
+			fmt.Sprintf("match can return true without `count > 0` (%v) or without `operation equal` (%v)", okCount, okOp))
+		// a "match" verdict is given only after every injected parameter was compared (or there is none)
+		after := exhausted != nil && dominates(exhausted, retTrue.Block())
+		none := condHas(cs, true, func(v ssa.Value) bool {
+			bo, ok := v.(*ssa.BinOp)
+			if !ok || bo.Op != token.EQL {
+				return false
+			}
+			z, isZ := constInt(bo.Y)
+			sx := sources(bo.X)
+			return isZ && z == 0 && sx["field:Parameters"] && !sx["param:params"]
+		})
+		r.Check("C18.4", "C18.4:verdict-after-all-parameters"+sfx, retTrue.Pos(), after || none, "true only after the loop over the injected parameters is exhausted",
+			"match returns true on a path that has not compared every injected parameter with the call's parameters (e.g. a fast path keyed on the CALL's parameter map): calls that do not match are failed")
+	}
 	// every injected parameter must be present and equal
 	missing, different := false, false
 	for _, b := range fn.Blocks {
